@@ -139,7 +139,7 @@ def narrow_casts(ctx, rep):
                     from mirq import inline_calls, expand_adaptors
                     modp = (fn[1:].split(" as ")[0] if fn.startswith("<") else fn)
                     modp = re.sub(r"::<impl .*$", "", modp).rsplit("::", 1)[0] + "::" if "<impl" in fn else modp.rsplit("::", 1)[0] + "::"
-                    nb = expand_adaptors(inline_calls(b, lambda d, modp=modp: d.startswith(modp) and "{closure" not in d and d != fn, depth=3))
+                    nb = expand_adaptors(inline_calls(b, lambda d, modp=modp: d.startswith(modp) and "{closure" not in d and d != fn, depth=3), values=True)
                     if nb is not b:
                         an2 = absint.Intervals(nb, ctx.mir)
                         same = [c2 for c2 in an2.casts if c2["line"] == c["line"] and c2["from"] == c["from"] and c2["to"] == c["to"] and c2["bb"] in an2.reachable()]
